@@ -9,6 +9,7 @@ from nbsym import engine as E
 
 ID = "C19"
 TITLE = "find-snvs allele depths == base calls of the reads passing the CONFIGURED read filters (--mapping-quality, keep-duplicate/qcfail/supplementary); alleles listed iff they meet the individual and population thresholds; >= 2 alleles; REF first / REFMASKED; ALT by decreasing mean sample frequency"
+TECHNIQUE = 'symbolic execution of bam_region_depths against a pysam.pileup contract stub (expected depth as a z3 term over all read variables); thresholds by solver-enumerated depths against an oracle; witnesses replayed on real BAM files'
 ENCODED = ["mchap.application.find_snvs.bam_region_depths", "mchap.application.find_snvs.bases_to_indices", "mchap.application.find_snvs._count_alleles",
            "mchap.application.find_snvs.write_vcf_block", "mchap.application.find_snvs._vcf_sort_alleles", "mchap.application.find_snvs._order_as_vcf_alleles",
            "mchap.application.find_snvs.format_samples_columns"]
